@@ -221,7 +221,8 @@ pub fn first_occurrence(text: &str, name: &str) -> Option<usize> {
 pub fn c24(out: &mut Out, ex: &mut Exec, seed: u64, thorough: bool) {
     NON_ASCII_LITERALS.with(|c| c.set(true));
     let mut rng = Rng::new(seed); let n = if thorough { 40_000 } else { 2_500 }; let mut seen = HashSet::new();
-    for _ in 0..n {
+    for i in 0..n {
+        NON_ASCII_LABELS.with(|c| c.set(i % 3 == 2));
         let stmts = gen_single(&mut rng, 18, true);
         let l = layout(&stmts);
         let text = render(&mut rng, &stmts);
@@ -253,6 +254,7 @@ pub fn c24(out: &mut Out, ex: &mut Exec, seed: u64, thorough: bool) {
 pub fn c21(out: &mut Out, ex: &mut Exec, seed: u64, thorough: bool) {
     let mut rng = Rng::new(seed); let n = if thorough { 30_000 } else { 2_000 }; let mut seen = HashSet::new();
     for i in 0..n {
+        NON_ASCII_LABELS.with(|c| c.set(i % 3 == 2));
         let k = rng.below(3) as usize; let names = fresh_names(&mut rng, k, &[]);
         let k = 1 + rng.below(2) as usize; let externals = fresh_names(&mut rng, k, &names);
         let mut user = gen_file(&mut rng, &FileCfg { origins: vec![0x3000, 0x3800], names: names.clone(), externals: externals.clone(), max_stmts: 12, data_bias: 4 });
@@ -398,7 +400,8 @@ pub fn link_plans(k: usize, rng: &mut Rng, max_plans: usize) -> Vec<Vec<(String,
 /// C20 (order independence, union, externals) and C22 (debug info after linking)
 pub fn c20(out: &mut Out, ex: &mut Exec, seed: u64, thorough: bool, debug_info: bool) {
     let mut rng = Rng::new(seed); let n = if thorough { 6_000 } else { 400 }; let mut seen = HashSet::new();
-    for _ in 0..n {
+    for i in 0..n {
+        NON_ASCII_LABELS.with(|c| c.set(i % 3 == 2));
         let k = if debug_info { 2 + rng.below(2) as usize } else { 2 + rng.below(3) as usize };
         let set = gen_linkset(&mut rng, k, false);
         let exp = link_expect(&set.files);
